@@ -13,6 +13,11 @@
  *       meta | setft k | setfmt k | setfprec p | setdprec p
  *   conv <src> <dst> <newtype>
  *   reset                         (free both objects, allocate two fresh ones)
+ *   <o> allocinit t r c f         (vnadata_free of object o, then vnadata_alloc_and_init; when that
+ *                                  returns NULL the slot receives a fresh vnadata_alloc object)
+ *   <o> typename k                (vnadata_get_type_name(k): payload "s <name>" or "s NULL")
+ *   <o> setfmtbad j               (vnadata_set_format with the j-th of a few strings that do not
+ *                                  parse: must fail, one error report, format unchanged)
  * Caller's vectors.  The harness is the caller of the vector-taking setters; the library cannot
  * check the length of the buffer it is handed.  For the ops above the harness always supplies a
  * buffer of exactly max(N, documented length) elements - the N listed values followed by zeros,
@@ -57,6 +62,10 @@ static const fn_entry_t fn_table[] = {
 
 static const char *format_table[] = { "Sri", "SdB,Zri", "Zinma", "PRC,IL", "ri", "Tma,UdB" };
 #define NFORMATS ((int)(sizeof(format_table) / sizeof(format_table[0])))
+/* strings that vnadata_set_format must refuse: empty string, empty field, no Zin in dB, unknown
+ * letter, trailing garbage, trailing comma */
+static const char *bad_format_table[] = { "", "Sri,,Zma", "zindb", "q", "Smax", "Sri," };
+#define NBADFORMATS ((int)(sizeof(bad_format_table) / sizeof(bad_format_table[0])))
 
 static int cb_count;
 static void error_fn(const char *message, void *arg, vnaerr_category_t category)
@@ -329,6 +338,39 @@ static int run(void)
 	vdp = vd[o];
 	name = next();
 	exact_buffer = 0;
+	if (strcmp(name, "allocinit") == 0) {
+	    int t = nint(), r = nint(), c = nint(), f = nint();
+
+	    vnadata_free(vd[o]);
+	    errno = 0;
+	    vd[o] = vnadata_alloc_and_init(error_fn, NULL, (vnadata_parameter_type_t)t, r, c, f);
+	    if (vd[o] == NULL) {
+		rint_(-1);
+		vd[o] = vnadata_alloc(error_fn, NULL);
+		if (vd[o] == NULL) {
+		    return 2;
+		}
+	    } else {
+		rint_(0);
+	    }
+	    digest(o, vd[o]);
+	    continue;
+	}
+	if (strcmp(name, "typename") == 0) {
+	    const char *s = vnadata_get_type_name((vnadata_parameter_type_t)nint());
+
+	    rhead("ok");
+	    printf("s %s\n", s != NULL ? s : "NULL");
+	    digest(o, vdp);
+	    continue;
+	}
+	if (strcmp(name, "setfmtbad") == 0) {
+	    int j = nint();
+
+	    rint_(vnadata_set_format(vdp, bad_format_table[((j % NBADFORMATS) + NBADFORMATS) % NBADFORMATS]));
+	    digest(o, vdp);
+	    continue;
+	}
 	{
 	    size_t len = strlen(name);
 
